@@ -1983,7 +1983,11 @@ impl<'a> Iterator for ModuleEntryIterator<'a, '_> {
                   if self.seen.insert(specifier) {
                     self.visiting.push_front(specifier);
                   }
-                  if self.kind == GraphKind::TypesOnly {
+                  if self.kind == GraphKind::TypesOnly
+                    // a module that names itself as its types is its own
+                    // types module; skipping it would yield nothing for it
+                    && resolved.specifier != module.specifier
+                  {
                     continue; // skip visiting the code module
                   }
                 } else if self.kind == GraphKind::TypesOnly
